@@ -450,5 +450,106 @@ theorem fractionPhase_trunc (o : POpts) (b : Bytes) (m0 : Nat) (fp : FracPart) (
     rw [if_neg hf2]
     rfl
 
+theorem parseSign_trunc (np rq : Bool) (ip ms : String) : TruncOK (parseSign c np rq ip ms) := by
+  intro b b' neg hv h
+  unfold parseSign at h
+  split at h
+  · next hfst =>
+    have hlt := first_some_lt b _ hfst
+    split at h
+    · next hnp =>
+      simp only [step_nf hd, bind, Except.bind, pure, Except.pure, Except.ok.injEq, Prod.mk.injEq] at h
+      obtain ⟨rfl, rfl⟩ := h
+      refine ⟨rfl, by simp, by simp only [Bytes.Valid, at_index, at_slc]; omega, ?_⟩
+      intro n hn
+      simp only [at_index] at hn
+      unfold parseSign
+      rw [first_trunc, if_pos (by omega), hfst]
+      simp only [hnp, if_true, step_nf hd, bind, Except.bind, pure, Except.pure, trunc_index]
+      rfl
+    · cases h
+  · next hfst =>
+    have hlt := first_some_lt b _ hfst
+    simp only [step_nf hd, bind, Except.bind, pure, Except.pure, Except.ok.injEq, Prod.mk.injEq] at h
+    obtain ⟨rfl, rfl⟩ := h
+    refine ⟨rfl, by simp, by simp only [Bytes.Valid, at_index, at_slc]; omega, ?_⟩
+    intro n hn
+    simp only [at_index] at hn
+    unfold parseSign
+    rw [first_trunc, if_pos (by omega), hfst]
+    simp only [step_nf hd, bind, Except.bind, pure, Except.pure, trunc_index]
+    rfl
+  · next h43 h45 =>
+    split at h
+    · cases h
+    · next hrq =>
+      simp only [pure, Except.pure, Except.ok.injEq, Prod.mk.injEq] at h
+      obtain ⟨rfl, rfl⟩ := h
+      refine ⟨rfl, Nat.le_refl _, hv, ?_⟩
+      intro n hn
+      unfold parseSign
+      rw [first_trunc]
+      split
+      · next hc => split at hc <;> simp_all
+      · next hc => split at hc <;> simp_all
+      · simp only [hrq]; rfl
+
+theorem exponentPhase_trunc (he : Bool) (b : Bytes) (fr : Option (List Nat)) (ex : Int) (ep : ExpPart)
+    (hv : Bytes.Valid b) (hlt : he = true → b.index < b.slc.length)
+    (h : exponentPhase c he b fr ex = .ok ep) :
+    ep.byte = Bytes.at b ep.byte.index ∧ b.index ≤ ep.byte.index ∧ Bytes.Valid ep.byte ∧
+    (he = true → b.index + 1 ≤ ep.byte.index) ∧
+    ∀ n, ep.byte.index ≤ n →
+      exponentPhase c he (trunc n b) fr ex = .ok { ep with byte := trunc n ep.byte } := by
+  unfold exponentPhase at h
+  cases he with
+  | false =>
+    simp only [Bool.false_eq_true, if_false, hf, Bool.false_and, pure, Except.pure, Except.ok.injEq] at h
+    subst h
+    refine ⟨rfl, Nat.le_refl _, hv, by simp, ?_⟩
+    intro n _
+    unfold exponentPhase
+    simp only [Bool.false_eq_true, if_false, hf, Bool.false_and, pure, Except.pure]
+  | true =>
+    have hlt := hlt rfl
+    simp only [if_true, step_nf hd, hf, Bool.false_and, Bool.false_eq_true, if_false, bind, Except.bind, pure,
+      Except.pure, currentCount_nf hf] at h
+    have hv0 : Bytes.Valid (Bytes.at b (b.index + 1)) := by simp only [Bytes.Valid, at_index, at_slc]; omega
+    cases hs : parseExponentSign c (Bytes.at b (b.index + 1)) with
+    | error e => simp [hs] at h
+    | ok ps =>
+      obtain ⟨ng, b1⟩ := ps
+      obtain ⟨a1, a2, a3, a4⟩ := parseSign_trunc hf hd _ _ _ _ _ b1 ng hv0 hs
+      simp only [hs] at h
+      cases hdg : parseDigits c .exponent c.exponentRadix b1 with
+      | error e => simp [hdg] at h
+      | ok pd =>
+        obtain ⟨ds, b2⟩ := pd
+        obtain ⟨d1, d2, d3, d4⟩ := parseDigits_trunc hf hd .exponent c.exponentRadix b1 b2 ds a3 hdg
+        simp only [hdg] at h
+        split at h
+        · cases h
+        · next hreq =>
+          simp only [Except.ok.injEq] at h
+          subst h
+          simp only [at_index] at a2
+          refine ⟨?_, by simp only; omega, d3, by intro _; simp only; omega, ?_⟩
+          · simp only; rw [d1, a1]; rfl
+          · intro n hn
+            simp only at hn
+            unfold exponentPhase
+            simp only [if_true, step_nf hd, hf, Bool.false_and, Bool.false_eq_true, if_false, bind, Except.bind,
+              pure, Except.pure, currentCount_nf hf, trunc_index]
+            have t1 := a4 n (by omega)
+            rw [← trunc_at]
+            unfold parseExponentSign at hs ⊢
+            rw [t1]
+            simp only
+            rw [d4 n hn]
+            simp only [trunc_index]
+            split
+            · next hc => exact absurd hc hreq
+            · rfl
+
 end
 end LexVerif.Proof.C11
